@@ -170,25 +170,6 @@ deriving Repr, Inhabited
 
 def offsetOf (sizes : List Nat) (k : Nat) : Nat := (sizes.take k).sum
 
-/-- Python's clamping of a slice bound for a positive step: into `[0, N]` -/
-def clampUp (N i : Int) : Int := if i < 0 then (if i + N < 0 then 0 else i + N) else (if i > N then N else i)
-/-- … and for a negative step: into `[-1, N - 1]` -/
-def clampDown (N i : Int) : Int := if i < 0 then (if i + N < 0 then -1 else i + N) else (if i ≥ N then N - 1 else i)
-/-- number of terms of a progression of positive stride `s` covering a distance `d`: `⌈d / s⌉`, 0 if `d ≤ 0` -/
-def strideCount (d s : Int) : Nat := if d ≤ 0 then 0 else ((d + s - 1) / s).toNat
-
-/-- `slice(a, b, step).indices(n)` of Python for `step ≠ 0`: (start, count) of the arithmetic progression -/
-def stridedBounds (n : Nat) (a b : Option Int) (step : Int) : Int × Nat :=
-  let N : Int := n
-  if step > 0 then
-    let start := (a.map (clampUp N)).getD 0
-    let stop := (b.map (clampUp N)).getD N
-    (start, strideCount (stop - start) step)
-  else
-    let start := (a.map (clampDown N)).getD (N - 1)
-    let stop := (b.map (clampDown N)).getD (-1)
-    (start, strideCount (start - stop) (-step))
-
 /-- flat indices selected from an object of size `n` starting at `base` (Python semantics:
 negative integer indices count from the end, slices clamp, a zero step is an error, every element of an
 index list is normalised like an integer index) -/
